@@ -1632,6 +1632,15 @@ class ServerClientConnection(ConnectionBase):
         reply.salt = self.session_salt
 
         payload = reply.dumpb(server_root_key=self.ctxt.server_root_key)
+
+        if len(payload) > len(data):
+            # the client hello is padded so that the reply is never larger than
+            # the request. with an MTU too small for that, do not answer at all
+            self.log.warning("client hello smaller than the server hello (MTU too small): not answered")
+            self.token = 0
+            self.session_salt, self.session_key_bytes = None, None
+            return
+
         self.status = ConnectionStatus.CONNECTING
         self._send_type(PacketType.SERVER_HELLO, payload, RetryMode.NONE, None)
 
